@@ -166,13 +166,11 @@ def cmp_view(got, exp):
         longer = any(g > e for g, e in worse.values())
         shorter = any(g < e for g, e in worse.values())
         d = "longer" if longer and not shorter else "shorter" if shorter and not longer else "mixed"
-        # witness pattern: do the changed pairs fill exactly one group of tips, all off by the same amount?
-        group = sorted({t for k in worse for t in k})
+        # witness pattern: is every changed path off by one and the same amount?
         diffs = [g - e for g, e in worse.values()]
-        one_group = len(worse) == len(group) * (len(group) - 1) // 2
-        uniform = all(abs(x - diffs[0]) <= 1e-9 * max(1.0, abs(diffs[0])) for x in diffs)
-        d += "-within-one-tip-group-by-a-constant" if one_group and uniform else "-within-one-tip-group" if one_group else \
-            "-by-a-constant" if uniform else "-scattered"
+        scale = max(1.0, max(abs(e) for e in exp[2].values()))
+        if all(abs(x - diffs[0]) <= 1e-9 * scale for x in diffs):
+            d += "-by-a-constant"
         k = sorted(worse)[0]
         return ("D", d, f"{len(worse)} of {len(exp[2])} path lengths changed, e.g. d{k} = {worse[k][0]!r}, expected {worse[k][1]!r}")
     if got[3] != exp[3]:
@@ -429,6 +427,8 @@ def run_chain(model, ops, direct=False, prefix="", keyfn=None):
     for op in ops:
         recv_model = walk(t)
         sig = recv_sig(recv_model)
+        if not is_tip(recv_model) and len(recv_model[0]) < 2:
+            return ("skip",)  # a root with a single child (get_sub_tree(keep_root=True)) is neither a rooted nor an unrooted tree
         before = snapshot(t)
         vrecv = view(recv_model)
         try:
